@@ -6,14 +6,21 @@ Open Scope R_scope.
 Notation pfloat := Coq.Floats.PrimFloat.float.
 
 (* ---------- executable binary64 model of PhaseShift.transform (one coordinate) ---------- *)
-Definition fmod1 (s : pfloat) : pfloat :=               (* numpy  s % 1  for -1 < s < 2 *)
-  if (s <? 0)%float then (s + 1)%float else if (1 <=? s)%float then (s - 1)%float else s.
-Definition shift_asis (c x : pfloat) : pfloat := fmod1 (x + (0.5 - c))%float.
+(* numpy's  s % 1  (npy_divmod) for -1 < s < 2: fmod(s,1) is exact there; a negative remainder gets +1 (rounded!),
+   a zero remainder becomes +0.0 *)
+Definition fmod1 (s : pfloat) : pfloat :=
+  if (s <? 0)%float then (s + 1)%float else if (1 <=? s)%float then (s - 1)%float else if (s =? 0)%float then 0%float else s.
+Definition shift_asis (c x : pfloat) : pfloat := fmod1 (x + (0.5 - c))%float.          (* before the repair *)
+Definition unshift_asis (c x : pfloat) : pfloat := fmod1 (x + - (0.5 - c))%float.
+(* `points_t[points_t[:, dim] >= 1, dim] -= 1` *)
 Definition fold1 (r : pfloat) : pfloat := if (1 <=? r)%float then (r - 1)%float else r.
-Definition shift (c x : pfloat) : pfloat := fold1 (shift_asis c x).   (* repaired: 1.0 folded back to 0.0 *)
+(* PhaseShift.transform on one periodic coordinate, offset d = +-(0.5 - c) *)
+Definition tr (d x : pfloat) : pfloat := fold1 (fmod1 (x + d)%float).
+Definition shift (c x : pfloat) : pfloat := tr (0.5 - c)%float x.
+Definition unshift (c x : pfloat) : pfloat := tr (- (0.5 - c))%float x.
 
 (* the defect of the unrepaired code: 0.3 with centre 0.8 is mapped to exactly 1.0 *)
-Example shift_asis_refuted :
+Example float_asis_refuted :
   exists c x : pfloat, (0 <=? x)%float = true /\ (x <? 1)%float = true /\ (0 <=? c)%float = true /\ (c <? 1)%float = true /\
                        (shift_asis c x =? 1)%float = true.
 Proof. exists 0x1.999999999999ap-1%float, 0x1.3333333333333p-2%float. vm_compute. repeat split. Qed.
@@ -109,7 +116,8 @@ Proof.
   - rewrite (leb_R 1%float s F1 Fs), R1. destruct (Rle_bool_spec 1 (FR s)) as [Hge|Hlt].
     + destruct (sub_small s 1%float Fs F1) as [Fa Ra]; [rewrite R1; apply Rabs_le; lra|].
       split; auto. rewrite Ra, R1. apply rnd_between; auto using fmt_0, fmt_1; lra.
-    + split; [assumption | lra].
+    + destruct (s =? 0)%float; [destruct FR_0 as [Z0 Fz]; split; [exact Fz|rewrite Z0; lra]|].
+      split; [assumption | lra].
 Qed.
 
 Lemma fold1_spec (r : pfloat) : fin r -> 0 <= FR r <= 1 -> fin (fold1 r) /\ 0 <= FR (fold1 r) < 1.
@@ -121,19 +129,35 @@ Proof.
   - split; [assumption | lra].
 Qed.
 
-(* C16 at binary64 level: the repaired transform maps [0,1) into [0,1), for every centre in [0,1) *)
-Theorem C16_float_range (c x : pfloat) :
-  fin x -> fin c -> 0 <= FR x < 1 -> 0 <= FR c < 1 ->
-  fin (shift c x) /\ 0 <= FR (shift c x) < 1.
+Lemma opp_R (y : pfloat) : fin y -> fin (- y)%float /\ FR (- y)%float = - FR y.
 Proof.
-  intros Fx Fc Hx Hc. destruct FR_half as [Rh Fh]. unfold shift, shift_asis.
-  destruct (sub_small 0.5%float c Fh Fc) as [Fd Rd]; [rewrite Rh; apply Rabs_le; lra|].
-  assert (Bd : -/2 <= FR (0.5 - c)%float <= /2).
-  { rewrite Rd, Rh. apply rnd_between; auto using fmt_half, fmt_mhalf; lra. }
-  destruct (add_small x (0.5 - c)%float Fx Fd) as [Fs Rs]; [apply Rabs_le; lra|].
-  assert (Bs : -/2 <= FR (x + (0.5 - c))%float <= 2).
+  unfold fin, FR. intros Fy. rewrite opp_equiv. rewrite is_finite_Bopp, B2R_Bopp. auto.
+Qed.
+
+Lemma tr_range (d x : pfloat) : fin x -> fin d -> 0 <= FR x < 1 -> -/2 <= FR d <= /2 ->
+  fin (tr d x) /\ 0 <= FR (tr d x) < 1.
+Proof.
+  intros Fx Fd Hx Hd. unfold tr.
+  destruct (add_small x d Fx Fd) as [Fs Rs]; [apply Rabs_le; lra|].
+  assert (Bs : -/2 <= FR (x + d)%float <= 2).
   { rewrite Rs. apply rnd_between; auto using fmt_2, fmt_mhalf; lra. }
   destruct (fmod1_spec _ Fs Bs) as [Fr Br].
   apply fold1_spec; auto.
 Qed.
-Print Assumptions C16_float_range.
+
+Lemma offset_range (c : pfloat) : fin c -> 0 <= FR c < 1 -> fin (0.5 - c)%float /\ -/2 <= FR (0.5 - c)%float <= /2.
+Proof.
+  intros Fc Hc. destruct FR_half as [Rh Fh].
+  destruct (sub_small 0.5%float c Fh Fc) as [Fd Rd]; [rewrite Rh; apply Rabs_le; lra|].
+  split; auto. rewrite Rd, Rh. apply rnd_between; auto using fmt_half, fmt_mhalf; lra.
+Qed.
+
+(* C16 at binary64 level: the transform maps [0,1) into [0,1), for every centre in [0,1), in both directions *)
+Theorem float_range (c x : pfloat) :
+  fin x -> fin c -> 0 <= FR x < 1 -> 0 <= FR c < 1 ->
+  (fin (shift c x) /\ 0 <= FR (shift c x) < 1) /\ (fin (unshift c x) /\ 0 <= FR (unshift c x) < 1).
+Proof.
+  intros Fx Fc Hx Hc. destruct (offset_range c Fc Hc) as [Fd Bd]. split.
+  - apply tr_range; auto.
+  - destruct (opp_R _ Fd) as [Fo Ro]. apply tr_range; auto. rewrite Ro. lra.
+Qed.
